@@ -52,7 +52,7 @@ def run_fcase(case, seed=0, replay_dir=None, known=None):
         obs = case.obligations(fi, outs)
         base = list(pre) + list(fi.constraints)
         if fi.uf_apps:
-            lem = fdom.verify_lemmas()
+            lem = fdom.verify_lemmas(parallel=int(os.environ.get("VERIF_F_WORKERS", "6")) if getattr(case, "z3_first_ms", 8000) == 0 else 0)
             res["traced"]["uf_applications"] = dict(fi.uf_apps)
             res["traced"]["lemmas"] = {k: v for k, v in lem.items()}
             bad = [k for k, v in lem.items() if v[0] != "unsat"]
@@ -61,7 +61,7 @@ def run_fcase(case, seed=0, replay_dir=None, known=None):
             if bad:
                 res["errors"].append(f"multiplication/division lemmas not discharged: {bad}")
         # reachability twin: the precondition and contracts are satisfiable
-        r, m = fdom.check(base, 20000)
+        r, m = fdom.check(base, 60000)
         res["twins"] = {"precondition_sat": r}
         if r != "sat":
             res["errors"].append(f"vacuity guard: precondition/contracts not satisfiable ({r})")
@@ -85,40 +85,66 @@ def run_fcase(case, seed=0, replay_dir=None, known=None):
             case.fi = keep
             case.sym_inputs(keep)
         res["validation"] = {"instances": nval, "kind": "F-term of the outputs with havocked values pinned to the real run == real output, bitwise"}
+        queries = []
         for entry in obs:
             label, post = entry[0], entry[1]
             assume = base if len(entry) < 3 else list(entry[2])
+            assume = _cone(assume, post)  # only the constraints that share symbols (transitively) with the post-condition
+            queries.append(assume + [z3.Not(post)])
+        # all obligations of the case are decided concurrently (the cvc5 leg runs as sub-processes)
+        import concurrent.futures as _cf
+        z3_first = getattr(case, "z3_first_ms", 8000)
+
+        def _one(q):
+            t0_ = time.time()
+            r_, m_ = fdom.check(q, int(case.timeout_s * 1000), z3_first_ms=z3_first)
+            return r_, m_, time.time() - t0_
+        if z3_first == 0 and len(queries) > 1 and fdom.have_cvc5():
+            texts = [fdom.smt2_text(q) for q in queries]  # z3 objects are touched by this thread only
+
+            def _cv(txt):
+                t0_ = time.time()
+                return fdom.run_cvc5(txt, int(case.timeout_s * 1000)), None, time.time() - t0_
+            with _cf.ThreadPoolExecutor(max_workers=int(os.environ.get("VERIF_F_WORKERS", "6"))) as pool:
+                answers = list(pool.map(_cv, texts))
+        else:
+            answers = [_one(q) for q in queries]
+        for entry, assume_q, (r, m, secs) in zip(obs, queries, answers):
+            label, post = entry[0], entry[1]
+            assume = assume_q[:-1]
             ob = {"label": label}
-            t0 = time.time()
-            r, m = fdom.check(assume + [z3.Not(post)], int(case.timeout_s * 1000))
-            ob.update(status=r, seconds=round(time.time() - t0, 3), how="QF_FP")
+            ob.update(status=r, seconds=round(secs, 3), how="QF_FP" if m is not None or z3_first else "QF_UFFP (cvc5)")
             if len(res["samples"]) < 2:
                 s = z3.Solver()
                 s.add(*(assume + [z3.Not(post)]))
                 txt = s.to_smt2()
                 res["samples"].append({"label": label, "smt2_head": txt[:1500], "smt2_bytes": len(txt)})
             if r == "sat":
-                witness = case.describe_model(m) if hasattr(case, "describe_model") else ""
-                hit = None
+                witness = case.describe_model(m) if (hasattr(case, "describe_model") and m is not None) else ("(sat from cvc5: no model imported)" if m is None else "")
+                hits = []
                 for tag, args in hostile:
                     try:
                         verdicts = case.concrete(args)
                     except Exception as ex:
                         verdicts = {"__error__": str(ex)}
                     if verdicts.get(label) is False:
-                        hit = (tag, args, verdicts)
-                        break
-                if hit is not None:
-                    key = f"{case.name}:{label}"
+                        hits.append((tag, args, verdicts))
+                # a finding is identified by the obligation AND the hostile input that realises it: a different input breaking the
+                # same obligation is still reported
+                new = [h for h in hits if not (known and f"{case.name}:{label}:{h[0]}" in known)]
+                old = [h for h in hits if known and f"{case.name}:{label}:{h[0]}" in known]
+                for h in old:
+                    res["known"].append({"label": label, "key": f"{case.name}:{label}:{h[0]}", "replay": _write_replay(case, label, h, witness, replay_dir),
+                                         "detail": f"real code breaks '{label}' on hostile input '{h[0]}'"})
+                if new:
+                    hit = new[0]
+                    key = f"{case.name}:{label}:{hit[0]}"
                     path = _write_replay(case, label, hit, witness, replay_dir)
-                    v = {"label": label, "key": key, "replay": path,
-                         "detail": f"real code breaks '{label}' on hostile input '{hit[0]}'; solver witness: {witness}"}
-                    if known and key in known:
-                        res["known"].append(v)
-                        ob["status"] = "known-finding"
-                    else:
-                        res["violations"].append(v)
-                        ob["status"] = "violated"
+                    res["violations"].append({"label": label, "key": key, "replay": path,
+                                              "detail": f"real code breaks '{label}' on hostile input '{hit[0]}'; solver witness: {witness}"})
+                    ob["status"] = "violated"
+                elif old:
+                    ob["status"] = "known-finding"
                 else:
                     ob["status"] = "candidate (not realised by the hostile-input library)"
                     ob["witness"] = witness
@@ -130,6 +156,46 @@ def run_fcase(case, seed=0, replay_dir=None, known=None):
         res["errors"].append(f"{type(ex).__name__}: {ex}\n{traceback.format_exc()[-1800:]}")
     res["wall_s"] = round(time.time() - t_start, 3)
     return res
+
+
+def _consts(e, cache):
+    k = e.get_id()
+    if k in cache:
+        return cache[k]
+    out = set()
+    stack = [e]
+    seen = set()
+    while stack:
+        t = stack.pop()
+        i = t.get_id()
+        if i in seen:
+            continue
+        seen.add(i)
+        if z3.is_const(t) and t.decl().kind() == z3.Z3_OP_UNINTERPRETED:
+            out.add(i)
+        else:
+            stack.extend(t.children())
+    cache[k] = out
+    return out
+
+
+def _cone(assume, post):
+    """cone of influence: drop constraints that share no uninterpreted constant, directly or through other constraints, with the
+    post-condition (sound: dropping assumptions can only make `unsat` harder to obtain)"""
+    cache = {}
+    want = set(_consts(post, cache))
+    sets = [(_consts(a, cache), a) for a in assume]
+    keep = [False] * len(sets)
+    changed = True
+    while changed:
+        changed = False
+        for k, (cs, a) in enumerate(sets):
+            if not keep[k] and (not cs or cs & want):
+                keep[k] = True
+                if cs - want:
+                    want |= cs
+                    changed = True
+    return [a for k, (cs, a) in enumerate(sets) if keep[k]]
 
 
 def _write_replay(case, label, hit, witness, replay_dir):
